@@ -12,6 +12,7 @@ valid codes
 and the property predicates judged on the implementation alone (oracle written here, independent of the model):
 orthonormality and handedness to 1e-12, pairwise distinctness of all 65 340 triads, covering radius of the decoded major
 axes (exact via the spherical Voronoi diagram when scipy is importable, and on a direction grid) <= 4.5 degrees."""
+import os
 from fractions import Fraction
 
 from vlib import coq, coqio
@@ -452,6 +453,55 @@ PRED = {
 }
 
 
+def impl_loader(payload):
+    """The observation point of the property: the sigma{r,n,v}_eigenvecs{Min,Mid,Maj}_{com,L2com} halo columns as the catalog
+    loader returns them, for every way of requesting a subset of the three axes of a group.  Each returned column must be the
+    float32 image of the direct decoding of the stored code (whose triads the all-codes run judges), and unit length."""
+    import itertools
+    import os
+    import random
+    import shutil
+    import warnings
+    import numpy as np
+    from abacusnbody.data.compaso_halo_catalog import CompaSOHaloCatalog, _unpack_euler16
+    from harness import halo_synth as hs
+    from vlib.implrun import classify
+    warnings.simplefilter('ignore')
+    rng = random.Random(payload['seed'])
+    n = payload['nrows']
+    spec = dict(box=64.0, zkms=2048.0, nrows=n, halo=hs.gen_values(rng, hs.raw_schema(), n, npout=2), cleaned=None,
+                particles=False, kind='euler')
+    root = payload['root']
+    out = []
+    try:
+        loc = hs.write_catalog(root, spec)
+        groups = sorted({k[:-4] for k in spec['halo'] if k.endswith('_u16') and 'eigenvecs' in k})   # e.g. sigmar_eigenvecs_com
+        for g in groups:
+            stem, frame = g.rsplit('_', 1)
+            code = np.array([r[0] for r in spec['halo'][g + '_u16']], dtype=np.uint16)
+            ref = [a.astype(np.float32) for a in _unpack_euler16(code)]
+            for k in (1, 2, 3):
+                for sel in itertools.combinations(('Min', 'Mid', 'Maj'), k):
+                    fields = [f'{stem}{w}_{frame}' for w in sel]
+                    try:
+                        cat = CompaSOHaloCatalog(loc['path'], cleaned=False, fields=fields)
+                        bad = []
+                        for w, f in zip(sel, fields):
+                            arr = np.asarray(cat.halos[f])
+                            want = ref[hs.EULER_WHICH[w]]
+                            norm_err = float(np.abs(np.sqrt((arr.astype(np.float64) ** 2).sum(axis=1)) - 1).max()) if len(arr) else 0.0
+                            if arr.shape != want.shape or not np.array_equal(arr, want) or norm_err > 1e-6:
+                                j = int(np.argmax(np.abs(arr - want).sum(axis=1))) if arr.shape == want.shape else 0
+                                bad.append({'column': f, 'row': j, 'code': int(code[j]), 'got': [float(x) for x in np.ravel(arr[j])],
+                                            'direct_decode': [float(x) for x in want[j]], 'norm_err': norm_err})
+                        out.append({'class': 'ok', 'fields': fields, 'bad': bad})
+                    except Exception as e:  # noqa: BLE001
+                        out.append({'class': classify(e), 'fields': fields, 'bad': [], 'value': repr(e)[:200]})
+    finally:
+        shutil.rmtree(root, ignore_errors=True)
+    return out
+
+
 def explore(ctx):
     spot_codes = _spot_codes(ctx)
     src = _py_source(ctx)
@@ -487,6 +537,21 @@ def explore(ctx):
                     'all-codes array (or the call raises)',
             'input': {'codes': cs}, 'impl_result': f['observed'], 'expected': 'each row = the triad of its own code',
             'predicate': PRED['rowwise'], 'predicate_id': 'rowwise'})
+    # ---- the halo columns as the catalog loader hands them out, for every subset of the three axes of a group
+    try:
+        lres = ctx.run_impl('harness.c18', 'impl_loader', {'seed': ctx.seed, 'nrows': 24 if ctx.quick() else 200,
+                                                           'root': os.path.join(ctx.scratch, 'euler_cat')})
+    except Exception as e:  # noqa: BLE001
+        lres = []
+        mismatches.append({'what': 'loader-path stage failed: ' + str(e)[:400]})
+    for lr in lres:
+        if (lr['class'] != 'ok' or lr['bad']) and not any(v['key'].startswith('euler16:loader') for v in counterexamples):
+            counterexamples.append({
+                'key': 'euler16:loader:' + '+'.join(f.split('eigenvecs')[1][:3] for f in lr['fields']),
+                'what': f"the eigenvector columns {lr['fields']} returned by CompaSOHaloCatalog are not the (unit) axes their codes decode to",
+                'input': {'fields': lr['fields'], 'codes': [b['code'] for b in lr['bad']][:3], 'loader': True},
+                'impl_result': lr['bad'][:2] or lr.get('value'), 'expected': 'float32 of the direct decoding of the stored code, unit length',
+                'predicate': PRED['orthonormal'], 'predicate_id': 'loader'})
     cov = r.get('coverage', {})
     gap = cov.get('voronoi_max_gap_deg')
     gdir = cov.get('voronoi_worst_direction')
@@ -576,6 +641,11 @@ def replay(ctx, rec):
     if pid == 'total':
         r = ctx.run_impl('harness.c18', 'impl_all', {'py_source': None, 'spot_codes': []})
         return 'crash' in r, {'impl_result': r.get('crash', 'no crash')}
+    if pid == 'loader':
+        lres = ctx.run_impl('harness.c18', 'impl_loader', {'seed': int(rec.get('seed', 0)), 'nrows': 24,
+                                                           'root': os.path.join(ctx.scratch, 'euler_cat_replay')})
+        hit = [lr for lr in lres if lr['fields'] == inp['fields'] and (lr['class'] != 'ok' or lr['bad'])]
+        return bool(hit), {'input': inp, 'impl_result': hit[:1]}
     if pid == 'rowwise':
         r = ctx.run_impl('harness.c18', 'impl_some', {'codes': inp['codes'], 'rowwise': True})
         return r['rowwise'] is not None, {'input': inp, 'impl_result': r['rowwise']}
